@@ -117,8 +117,8 @@ Theorem C16_lazy_to_rasmm_invariant : forall B t R, ~ (aff_det B == 0)%Q -> lz_t
 Proof. exact lazy_to_rasmm_invariant. Qed.
 Print Assumptions C16_lazy_to_rasmm_invariant.
 
-(* saving a tractogram held in any space (affine_to_rasmm = A) that was NOT built by
-   from_data_func: TCK receives A(x), TRK receives Ti(A(x)) *)
+(* saving a tractogram held in any space (affine_to_rasmm = A), eager or lazy via from_tractogram:
+   TCK receives A(x), TRK receives Ti(A(x)) (the lazily loaded case: C16_lazy_saved_loaded_trk_ideal) *)
 Theorem C16_lazy_saved_points_ideal : forall pts A Ti,
   (exists w, lz_saved_tck (lz_of_tractogram pts (Some A)) = Some w /\ sl_eq w (map (map (aff_apply A)) pts))
   /\ (exists w, lz_saved_trk Ti (lz_of_tractogram pts (Some A)) = Some w
@@ -126,21 +126,29 @@ Theorem C16_lazy_saved_points_ideal : forall pts A Ti,
 Proof. exact lazy_saved_from_tractogram. Qed.
 Print Assumptions C16_lazy_saved_points_ideal.
 
-(* FULL STATEMENT "the items of a lazy tractogram carry the points of its .streamlines":
-   proved for every tractogram not built by from_data_func (C16_lazy_items_partial); FALSE of
-   the faithful model - and of the code, finding S-C16c - for a lazily loaded TRK: its items are
-   the raw voxmm records, and saving it as TCK writes those *)
-Theorem C16_lazy_items_partial : forall t, lz_has_data t = false -> lz_items t = lz_streamlines t.
-Proof. exact lazy_items_no_data. Qed.
-Print Assumptions C16_lazy_items_partial.
+(* the items of a lazy tractogram (what `for item in t` and both save() methods see) carry the
+   points of its .streamlines - for EVERY LazyTractogram, built by from_tractogram or by
+   from_data_func (lazily loaded files), whatever is pending.  (True since the repair of S-C16c,
+   commit 3c04c5b7: LazyTractogram.data applies the pending affine to the data_func items.) *)
+Theorem C16_lazy_items : forall t, lz_items t = lz_streamlines t.
+Proof. exact lazy_items. Qed.
+Print Assumptions C16_lazy_items.
 
-Theorem C16_lazy_items_refuted :
+(* ... so a lazily loaded TRK (raw voxmm records, trackvis->RAS+mm affine T, T invertible) saved
+   again writes the right coordinates: TCK receives T(raw); TRK under an ARBITRARY target header
+   (RAS+mm->trackvis affine Ti2) receives Ti2(T(raw)) *)
+Theorem C16_lazy_saved_loaded_trk_ideal : forall raw T Ti2, ~ (aff_det T == 0)%Q ->
+  (exists w, lz_saved_tck (lz_load_trk raw T) = Some w /\ sl_eq w (map (map (aff_apply T)) raw))
+  /\ (exists w, lz_saved_trk Ti2 (lz_load_trk raw T) = Some w
+        /\ sl_eq w (map (map (fun x => aff_apply Ti2 (aff_apply T x))) raw)).
+Proof. exact lazy_saved_loaded_trk. Qed.
+Print Assumptions C16_lazy_saved_loaded_trk_ideal.
+
+Example C16_lazy_items_nonvacuous :
   let t := lz_load_trk raw0 aff_halfvox in
-  lz_items t = raw0 /\ lz_saved_tck t = Some raw0
-  /\ sl_eq (lz_streamlines t) [[(1 # 2, 3 # 2, 5 # 2); (7 # 2, 9 # 2, 11 # 2)]]%Q
-  /\ ~ sl_eq (lz_items t) (lz_streamlines t).
-Proof. exact lazy_items_refuted. Qed.
-Print Assumptions C16_lazy_items_refuted.
+  sl_eq (lz_items t) [[(1 # 2, 3 # 2, 5 # 2); (7 # 2, 9 # 2, 11 # 2)]]%Q
+  /\ exists w, lz_saved_tck t = Some w /\ sl_eq w [[(1 # 2, 3 # 2, 5 # 2); (7 # 2, 9 # 2, 11 # 2)]]%Q.
+Proof. exact lazy_items_example. Qed.
 
 (* ---- file position: after load from a file object at ANY position - eager, or lazy followed by
    ANY sequence of passes over the streamlines, each run to exhaustion or abandoned after k items
